@@ -196,8 +196,10 @@ def gen_seq_case(rng):
             sizes[0] = 8           # a leading empty payload frame is taken for the envelope delimiter (C11)
         via = "parts" if (pat in ("push_pull", "dealer_router", "dealer_dealer") and rng.random() < 0.25) else "mp"
         flags = "ok"
-        if via == "mp" and rng.random() < 0.25:
-            flags = "none"         # the application leaves MORE unset and relies on send_multipart
+        if via == "mp" and rng.random() < 0.4:
+            # the application leaves MORE unset and relies on send_multipart / hands over frames that all still carry
+            # MORE (relayed from a longer message): one send_multipart call is one message either way
+            flags = rng.choice(["none", "all"])
         msgs.append({"id": i + 1, "sizes": sizes, "flags": flags, "via": via})
     c["messages"] = msgs
     total = sum(len(m["sizes"]) for m in msgs) + 2 * k
@@ -235,6 +237,16 @@ def seq_fixed_cases():
         {"k": "seq", "transport": "inproc", "pattern": "push_pull", "sender_manual": False, "receiver_manual": False,
          "messages": [{"id": 1, "sizes": [8, 0, 9], "flags": "none", "via": "mp"}, {"id": 2, "sizes": [8], "flags": "ok", "via": "mp"}],
          "script": ["f", "mp", "f"], "rcvtimeo": 1500},
+    ] + [
+        # frames that ALL still carry MORE (relayed from a longer message): one send_multipart call is one message
+        {"k": "seq", "transport": tr, "pattern": pat, "sender_manual": sm, "receiver_manual": False,
+         "messages": [{"id": 1, "sizes": [8, 9], "flags": "all", "via": "mp"}, {"id": 2, "sizes": [8], "flags": "all", "via": "mp"},
+                      {"id": 3, "sizes": [8, 8, 8], "flags": "ok", "via": "mp"}],
+         "script": script, "rcvtimeo": 1500}
+        for (pat, tr, sm) in [("dealer_router", "tcp", False), ("dealer_router", "inproc", False), ("dealer_dealer", "tcp", False),
+                              ("push_pull", "tcp", False), ("pub_sub", "tcp", False), ("router_dealer", "tcp", False),
+                              ("dealer_router", "tcp", True)]
+        for script in (["mp", "mp", "mp"], ["f"] * 9)
     ]
 
 
@@ -257,7 +269,7 @@ def gen_stack_case(rng):
             sizes = ensure_tag(gen_sizes(rng, n)) if n < 50 else [8] * n
             if pat in ("dealer_router", "dealer_dealer") and sizes[0] == 0:
                 sizes[0] = 8
-            msgs.append({"id": i + 1, "sizes": sizes, "flags": rng.choice(["ok", "ok", "none"]), "via": "mp",
+            msgs.append({"id": i + 1, "sizes": sizes, "flags": rng.choice(["ok", "ok", "none", "all"]), "via": "mp",
                          "gap_ms": rng.choice([0, 0, 0, 5, 20])})
         senders.append({"manual": False, "messages": msgs})
     style = rng.choice([0, 1, 2, 2])
@@ -370,7 +382,7 @@ def c_iop(o):
 
 
 def c_mspec(m):
-    return "(%d, %s, %s, %s)" % (m["id"], C.cNlist(m["sizes"]), C.cbool(m.get("flags", "ok") != "none"),
+    return "(%d, %s, %s, %s)" % (m["id"], C.cNlist(m["sizes"]), {"none": "0", "ok": "1", "all": "2"}[m.get("flags", "ok")],
                                  C.cbool(m.get("via") == "parts"))
 
 
